@@ -406,7 +406,7 @@ class HistogramND(HistogramBase):
             if weights is not None and weights.shape == not_na.shape:
                 weights = weights[not_na]
         for i, binning in enumerate(self._binnings):
-            if binning.is_adaptive():
+            if binning.is_adaptive() and values_array.shape[0]:
                 bin_map = binning.force_bin_existence(
                     values_array[:, i]
                 )  # TODO: Add to some test
